@@ -9,10 +9,14 @@ def plans(tier):
     s = vlib.seed()
     if tier == "quick":
         return [dict(gens="star,hole,collapse", variants="base,again,rev,ringrev", n=900, W=6, nmax=12, bias=0.6, seed=s),
-                dict(gens="arbitrary", variants="base,again,rev", n=500, W=4, nmax=14, bias=0.7, seed=s + 1)]
+                dict(gens="arbitrary", variants="base,again,rev", n=500, W=4, nmax=14, bias=0.7, seed=s + 1),
+                # multi-turn spirals: several equal loops per level, the inputs on which the assembly stage deletes more than one ring
+                dict(gens="spiral", variants="base,again,again", n=1500, W=10, nmax=12, bias=0.5, seed=s + 3)]
     return [dict(gens="star,hole,collapse", variants="base,again,rev,ringrev", n=30000, W=6, nmax=14, bias=0.6, seed=s),
             dict(gens="arbitrary", variants="base,again,rev", n=20000, W=4, nmax=16, bias=0.7, seed=s + 1),
-            dict(gens="hole,collapse", variants="base,again,rev,ringrev", n=15000, W=8, nmax=12, bias=0.5, seed=s + 2)]
+            dict(gens="hole,collapse", variants="base,again,rev,ringrev", n=15000, W=8, nmax=12, bias=0.5, seed=s + 2),
+            dict(gens="spiral", variants="base,again", n=20000, W=10, nmax=12, bias=0.5, seed=s + 3),
+            dict(gens="spiral", variants="base,again", n=6000, W=14, nmax=12, bias=0.5, seed=s + 4)]
 
 
 def real_plans(tier):
